@@ -48,11 +48,11 @@ type cfgChange struct {
 	rate, burst int
 }
 
-const ruleC15 = "rapid-drawn token bucket configuration (rate 8 kbit/s..100 Mbit/s, burst 100..100000 B, queue 1000..200000 B) and arrival pattern (5..300 chunks, sizes 0..3*burst, gaps {0,1 ms,50 ms,90..110 ms,1 s,1 h}, run-time Set(TBFRate|TBFMaxBurst) at drawn points: on average every 25th, 4th or 2nd arrival, to one of the listed values or to the current rate +-1/8 bit/s) on the clock-redirected vnet/tbf.go; virtual time advances only while the filter goroutine is parked in its select, so every forwarding event has an exact timestamp; oracle: for all pairs i<=j of forwarding events sum(bytes i..j) <= B + R*(t_j-t_i)/8 with B,R the largest burst/rate configured at any instant of the interval; the forwarded chunks are exactly the head-of-queue objects in arrival order with unchanged contents; an arrival is discarded only if queued bytes + its length >= the queue size; non-trivial = the bucket was drained and refilled at least twice and at least one idle gap exceeded burst/rate; distinct by hash of configuration + arrivals"
+const ruleC15 = "rapid-drawn token bucket configuration (rate 8 kbit/s..100 Mbit/s, burst 100..100000 B, queue 1000..200000 B) and arrival pattern (5..300 chunks, sizes 0..3*burst, gaps {0,1 ms,50 ms,90..110 ms,1 s,1 h}, in a third of the cases a burst-sized arrival followed by a run of 20..80 arrivals of 1..3 bytes spaced m+1/2, m+3/4 or m+9/10 byte-times apart, run-time Set(TBFRate|TBFMaxBurst) at drawn points: on average every 25th, 4th or 2nd arrival, to one of the listed values or to the current rate +-1/8 bit/s) on the clock-redirected vnet/tbf.go; virtual time advances only while the filter goroutine is parked in its select, so every forwarding event has an exact timestamp; oracle: for all pairs i<=j of forwarding events sum(bytes i..j) <= B + R*(t_j-t_i)/8 with B,R the largest burst/rate configured at any instant of the interval; the forwarded chunks are exactly the head-of-queue objects in arrival order with unchanged contents; an arrival is discarded only if queued bytes + its length >= the queue size; non-trivial = the bucket was drained and refilled at least twice and at least one idle gap exceeded burst/rate; distinct by hash of configuration + arrivals"
 
 func TestC15TokenBucket(t *testing.T) {
 	r := ev.New("C15", "virtual-clock", ruleC15)
-	r.Essential = []string{"gap/90..110ms", "gap/1h", "size/above-burst", "discard", "set/rate", "set/burst", "set/frequent", "set/rate-nudge", "drained>=2"}
+	r.Essential = []string{"gap/90..110ms", "gap/1h", "size/above-burst", "discard", "set/rate", "set/burst", "set/frequent", "set/rate-nudge", "drained>=2", "gap/fractional-byte-times"}
 	r.MinForEssential = 300
 	r.Assume("the filter reads the clock only through time.Now/time.Since (checked by the instrumentation pass: no unsupported time facility in vnet/tbf.go)")
 	r.Check(t, func(t *rapid.T, c *ev.Case) {
@@ -105,10 +105,24 @@ func TestC15TokenBucket(t *testing.T) {
 		}
 		drained, longIdle := 0, false
 		t.Logf("rate=%d bit/s burst=%d B queue=%d B", rate, burst, qsize)
+		// a run of evenly spaced small arrivals whose spacing is a fractional number of
+		// byte-times (m + 1/2, 3/4 or 9/10): every credit then has a fractional part
+		runAt, runLen, runM, runF := -1, 0, 0, 0.0
+		if rapid.IntRange(0, 2).Draw(t, "fracRun") == 0 && n > 20 {
+			runAt = rapid.IntRange(0, n-20).Draw(t, "runAt")
+			runLen = rapid.IntRange(20, 80).Draw(t, "runLen")
+			runM = rapid.IntRange(0, 2).Draw(t, "runWhole")
+			runF = rapid.SampledFrom([]float64{0.5, 0.75, 0.9}).Draw(t, "runFrac")
+			c.Label("gap/fractional-byte-times")
+		}
 		for i := 0; i < n; i++ {
 			var gap time.Duration
+			inRun := runAt >= 0 && i >= runAt && i < runAt+runLen
 			gk := rapid.IntRange(0, 9).Draw(t, "gap")
 			switch {
+			case inRun:
+				byteTime := float64(time.Second) * 8 / float64(curRate)
+				gap = time.Duration((float64(runM) + runF) * byteTime)
 			case gk < 3:
 				c.Label("gap/0")
 			case gk < 4:
@@ -154,6 +168,10 @@ func TestC15TokenBucket(t *testing.T) {
 			}
 			var size int
 			switch sk := rapid.IntRange(0, 9).Draw(t, "sk"); {
+			case inRun && i == runAt:
+				size = curBurst // empties the bucket: from here on every credit is spent at once
+			case inRun:
+				size = rapid.IntRange(1, 3).Draw(t, "runSize")
 			case sk < 1:
 				size = 0
 			case sk < 7:
